@@ -36,7 +36,7 @@ class RecReader(Model):
     def __init__(self, name, kind, sc):
         self.name, self.kind, self.sc = name, kind, sc
         self.initialized = False
-        self.cpu_list = sc.get("hilbert_cpu_list") if name == "amr" else None
+        self.cpu_list = None      # like the real readers: the Hilbert pre-selection is (re)computed by initialize(), for the CURRENT call
         self.offsets = Offsets({k: 7 for k in OFFSET_KEYS})   # stale values of a previous file
         self.offsets["extra"] = 5
         self.bytes = None
@@ -54,6 +54,7 @@ class RecReader(Model):
         self._rec("initialize", dict(lmax=meta.get("lmax"), ncells=meta.get("ncells"), npart=meta.get("nparticles")),
                   select if not isinstance(select, dict) else dict(select), units)
         self.initialized = self.name in self.sc["initialized"]
+        self.cpu_list = self.sc.get("hilbert_cpu_list") if self.name == "amr" else None
         for item in self.variables.values():
             item["pieces"] = {}
         return self.sc["loaded_on_init"].get(self.name)
@@ -204,7 +205,6 @@ def run_load(tree, sc, loader=None, meta=None):
         for r in loader._attrs["readers"].values():
             r.sc = sc
             r.meta["ngridlevel"].trace = tr
-            r.cpu_list = sc.get("hilbert_cpu_list") if r.name == "amr" else None
             r.ncalls = 0
     fi = tree.func(LOAD)
     ev = ModelEval(tree, fi, {}, hooks)
@@ -293,6 +293,7 @@ SCENARIOS = [
     ("only sinks: no file is opened", dict(initialized=set()), dict(active=[], cpus=[], lmax=0, select=lambda kind: {})),
     ("hydro without amr: the AMR reader is added", dict(initialized={"hydro"}), dict(active=["hydro", "amr"], cpus=[1, 2], lmax=3, select=lambda kind: {})),
     ("only particles: files read, tree not traversed", dict(initialized={"part"}), dict(active=["part"], cpus=[1, 2], lmax=0, select=lambda kind: {})),
+    ("only particles with an explicit cpu_list: only those files are read", dict(initialized={"part"}, cpu_list=[2]), dict(active=["part"], cpus=[2], lmax=0, select=lambda kind: {})),
     ("select given as a list of groups", dict(select=["mesh", "sink"]),
      dict(active=["amr", "hydro", "part"], cpus=[1, 2], lmax=3, select=lambda kind: kind in ("mesh", "sink"))),
     ("a block with no selected cell; sorting requested", dict(ncells=lambda cpu, il: 0 if (cpu, il) == (2, 2) else 3, sortby={"mesh": "level", "absent": "x"}),
@@ -462,6 +463,23 @@ def check_load(run, tree):
             run.extra.setdefault("loader_fold_events", {})[label] = len(sc["trace"])
         except ERR as e:
             run.unresolved(construct, fi.where(), "cannot fold: %s" % e)
+    # ---- history: the Hilbert pre-selection of one load is not the cpu list of the next
+    construct = LOAD + "[a load with a Hilbert pre-selection, then a load without]"
+    try:
+        sc1 = scenario(select={"mesh": {"density": "G"}}, hilbert_cpu_list=[2])
+        sc1["reader_kinds"] = kinds
+        loader, out1 = run_load(tree, sc1)
+        sc2 = scenario()
+        sc2["reader_kinds"] = kinds
+        loader, out2 = run_load(tree, sc2, loader=loader, meta=sc1["meta"])
+        exp = dict(active=["amr", "hydro", "part"], cpus=[1, 2], lmax=3, select=lambda kind: {}, cap=False, lmax_meta=3)
+        problems = check_scenario(sc2, exp, loader, out2, kinds)
+        run.ob(construct, not problems, fi.where(), "; ".join("%s: %s" % p for p in problems[:3]) or "the second load reads every file",
+               "after a load restricted by position predicates, a plain load() still reads only the files of the earlier region")
+    except (Raised, ProgramRaised) as e:
+        run.violated(construct, fi.where(), "raises %s" % e, "second load")
+    except ERR as e:
+        run.unresolved(construct, fi.where(), "cannot fold: %s" % e)
     # ---- history: a second load on the same Loader object starts from scratch
     construct = LOAD + "[second load on the same Loader]"
     try:
